@@ -7,7 +7,7 @@ explicit-state BFS over query histories is run (mc/graphs.py: state = the per-no
 prepare + prepared_shortest_distance) and every observation is compared with Floyd-Warshall
 over the permitted directed arcs.
 """
-from mc import graphs
+from mc import graphs, pqueue
 from mc.env import guard
 from mc.graphs import INF, Graph, Oracle, close, is_number
 
@@ -22,6 +22,10 @@ RULE = ("cases = transitions (state, query) of the per-graph BFS; distinct becau
         "each query is fired once per expanded state; non-trivial = the graph has >= 2 edges and either an unreachable "
         "ordered pair or a pair whose every shortest walk uses >= 2 edges")
 ASSUMPTIONS = ["Dijkstra routing mode only (A* is documented as approximate)",
+               "the queue of the search, tracklib.core.utils.priority_dict (one of the property's anchors), is also explored on "
+               "its own: BFS over pd[k] = v / pop_smallest / smallest histories with full-state hashing (content + heap array) "
+               "against a plain dict -- the general contract of the class docstring and the insert / decrease-key pattern of a "
+               "Dijkstra search; pop_smallest / smallest may return any key of lowest priority",
                "weights from a 3-value set {0, a, b} per variant, cut values {0, a/2, a, b, a+b, 1e300}",
                "ordered edge lists; up to 3 nodes / 3 edges completely, 4 nodes only with 3 (or 2) edges that touch all "
                "four nodes (a 4-node graph with an untouched node is a 3-node graph plus an isolated node, and isolated "
@@ -52,7 +56,7 @@ _COMMON = {
     "history_depth_2": "a query was executed in a state left behind by a different query",
     "prepared_read": "prepared_shortest_distance read after prepare()",
 }
-OBLIGATIONS = {"all": _COMMON, "quick": {}, "thorough": {}}
+OBLIGATIONS = {"all": dict(_COMMON, **pqueue.OBLIGATIONS), "quick": {}, "thorough": {}}
 
 graphs.install_heap_counter()
 
@@ -96,7 +100,7 @@ def bounds(tier, variant):
                     "history_depth": ("until no new state (closes at 2), at most %d" % MAX_DEPTH)
                     if s.get("depth", MAX_DEPTH) > 1 else 1,
                     "edge_lists": graphs.count_edge_lists(al, s["ne"]) if not s["need"] else "counted at run time (counter graphs)"})
-    return {"spaces": out,
+    return {"spaces": out, "priority_dict": pqueue.bounds(tier, variant),
             "cuts": "0, a/2, a, b, a+b, 1e300 for weights {0, a, b}",
             "queries": "shortest_distance for every ordered pair, all_shortest_distances for every cut, "
                        "prepare(1e300 | a) + prepared_shortest_distance for every ordered pair"}
@@ -111,7 +115,7 @@ def plan(tier, variant):
             shards.append({"nn": s["nn"], "ne": s["ne"], "W": s["W"], "pairs": s["pairs"], "need": s["need"],
                            "lo": lo, "hi": min(n_first, lo + s["chunk"]), "variant": variant,
                            "depth": s.get("depth", MAX_DEPTH)})
-    return shards
+    return pqueue.shards(tier, variant) + shards        # the queue of the search first (shortest counterexamples first)
 
 
 # ---------------------------------------------------------------------------
@@ -306,6 +310,8 @@ def explore_graph(variant, nn, edges, W, depth, ctx):
 
 
 def run_shard(shard, ctx):
+    if shard.get("kind") == "pq":
+        return pqueue.run_shard(shard, ctx)
     variant, nn, ne = shard["variant"], shard["nn"], shard["ne"]
     W = shard["W"]
     al = graphs.edge_alphabet(variant, nn, W, shard["pairs"])
@@ -328,6 +334,8 @@ def run_shard(shard, ctx):
 
 # ---------------------------------------------------------------------------
 def replay(case, ctx):
+    if case.get("kind") == "pq":
+        return pqueue.replay(case, ctx)
     variant, nn = case["variant"], case["nn"]
     edges = tuple(tuple(e) for e in case["edges"])
     hist = tuple(tuple(h) for h in case["hist"])
